@@ -6,6 +6,13 @@ frame's logits = scaling of the frame's weights) and generates the cases; the re
 evaluates the recorded fixed-point values with tolerances (Confidence_Trace).  Property-level clauses: range, sum, shift
 invariance WITH THE ALIGNMENT HELD FIXED (Appendix D), invariance and monotonicity of the confident-line test, one-hot => 1.
 Equality with the exact rational (Strict = TRUE) is reported as MODEL-DRIFT only.
+
+History (kind "hist", and the "hsteps" of kind "alto"): the statement speaks about the posteriors a line carries; the pipeline
+re-assigns `line.logits` of long-lived TextLine / PageLayout objects (a second OCR pass, merged OCR results) and asks for
+confidences in between.  A sample of the TLC initial states is therefore also driven through ONE long-lived page / line /
+PageDecoder set: logits M1 -> other logits M2 -> (a call that may fail) -> M1 with another constant per frame -> one-hot logits
+spelling the transcription, every confidence asked after every assignment.  TLC judges every step on the matrix recorded for
+that step (range, one-hot => 1, monotone test) and steps 1 / 3 against each other (shift invariance on the same object).
 """
 import itertools
 import math
@@ -197,6 +204,163 @@ def _line_case(item):
     return rec
 
 
+HIST_KINDS = ("spelled", "rows", "rolled")
+
+
+def _spelled(labels, al, t, nc, d):
+    """the one-hot weight matrix that spells the transcription: label i on its aligned frame, blank elsewhere"""
+    m = [[0] * nc for _ in range(t)]
+    for f in range(t):
+        m[f][nc - 1] = d
+    for i, f in enumerate(al):
+        m[f - 1] = [0] * nc
+        m[f - 1][labels[i]] = d
+    return m
+
+
+class _LongLived:
+    """ONE page / region / line / PageParser and one PageDecoder per threshold, kept for the whole history of a case: the logits
+    of the line are replaced by assignment to its public `logits` attribute (what PageOCR.process_page and merge_ocr_results
+    do to the lines of a page they are handed again) and every confidence is asked again through the same objects."""
+
+    def __init__(self, chars, text, d):
+        from pero_ocr.core.layout import PageLayout, RegionLayout, TextLine
+        from pero_ocr.document_ocr.page_parser import PageDecoder, PageParser
+        self.line = TextLine(id="l", characters=chars, transcription=text)
+        self.page = PageLayout(id="p", page_size=(10, 10))
+        region = RegionLayout("r", np.array([[0, 0], [9, 0], [9, 9], [0, 9]]))
+        region.lines.append(self.line)
+        self.page.regions.append(region)
+        self.parser = PageParser.__new__(PageParser)
+        self.thresholds = [-1.0, -0.001] + [k / (2.0 * d) for k in range(2 * d + 1)]
+        self.decoders = []
+        for thr in self.thresholds:
+            probe = _ProbeDecoder()
+            self.decoders.append((probe, PageDecoder(probe, line_confidence_threshold=thr, carry_h_over=False)))
+
+    def keeps(self):
+        out = []
+        for probe, dec in self.decoders:
+            probe.called = False
+            keep = self.line.transcription
+            dec.process_page(self.page)
+            self.line.transcription = keep
+            out.append(not probe.called)
+        return out
+
+
+def _observe(ll, lab, al0, path, nc, d):
+    """every confidence of C16 that is derived from the logits the long-lived line carries NOW"""
+    from pero_ocr.core.confidence_estimation import get_line_confidence, get_letter_confidence
+    from pero_ocr.document_ocr.page_parser import PageParser, line_confident_enough
+    line = ll.line
+    lc = np.asarray(get_line_confidence(line, lab, aligned_letters=al0.copy()), dtype=float)
+    let = np.exp(np.asarray(get_letter_confidence(line.get_dense_logits(), list(path), nc - 1), dtype=float))
+    cmp_ = float(PageParser.compute_line_confidence(line))
+    ll.parser.update_confidences(ll.page)
+    upd = float(line.transcription_confidence)
+    full = line.get_full_logprobs()          # what PageDecoder hands to the confident-line test
+    with np.errstate(all="ignore"):
+        lce = [bool(line_confident_enough(np.array(full), k / (2.0 * d))) for k in range(2 * d + 1)]
+        lce_neg = [bool(line_confident_enough(np.array(full), thr)) for thr in (-1.0, -0.001)]
+        sys_ = ll.keeps()
+    return {"lc": lc, "let": let, "cmp": cmp_, "upd": upd, "lce": lce, "lce_neg": lce_neg, "sys": sys_}
+
+
+def _step_rec(wm, o, nlab):
+    rec = {"w": [list(r) for r in wm], "outcome": "ok", "lc": [_m6(x) for x in o["lc"]], "let": [_m6(x) for x in o["let"]],
+           "cmp": _m6(o["cmp"]), "upd": _m6(o["upd"]), "lce": o["lce"], "lce_neg": o["lce_neg"], "sys": o["sys"], "over": 0, "one": 0, "one_cmp": 0}
+    if len(o["lc"]) != nlab or len(o["let"]) != nlab:
+        rec["outcome"] = "wrong-number-of-confidences"
+        return rec
+    allv = np.concatenate([o["lc"], o["let"], [o["cmp"], o["upd"]]])
+    if not np.isfinite(allv).all():
+        rec["outcome"] = "exception:NaN"
+        return rec
+    rec["over"] = _u12(max(float(np.max(allv - 1.0)), float(np.max(-allv))))
+    rec["one"] = _u12(float(np.max(1.0 - np.concatenate([o["lc"], o["let"]]))))
+    rec["one_cmp"] = _u12(max(1.0 - o["cmp"], 1.0 - o["upd"]))
+    return rec
+
+
+def _hist_case(item):
+    """kind "hist": the history M1 -> M2 -> (failing call) -> M1 + constants -> one-hot on ONE long-lived line (see module docstring).
+    The fields of a "line" trace hold step 1 (unshifted) and step 3 (shifted); "steps" holds steps 2 and 4 with their matrices."""
+    from pero_ocr.core.confidence_estimation import get_line_confidence
+    (wm, labels, al), seed = item
+    t, nc, d = _CFG["T"], _CFG["NC"], _CFG["D"]
+    rng = random.Random(seed)
+    rec = {"kind": "hist", "w": [list(r) for r in wm], "labels": list(labels), "al": list(al), "seed": seed, "outcome": "ok",
+           "lc": [], "lc_s": [], "let": [], "let_s": [], "cmp": 0, "cmp_s": 0, "lce": [], "lce_s": [], "lce_neg": [], "lce_neg_s": [], "sys": [], "sys_s": [],
+           "over": 0, "dshift": 0, "dshift_cmp": 0, "one": 0, "one_cmp": 0, "steps": [], "second": "", "failing_call": False}
+    try:
+        c0 = [rng.uniform(-3, 3) for _ in range(t)]
+        c1 = [x + rng.choice([-1, 1]) * rng.uniform(0.5, 4) for x in c0]
+        c2 = [rng.uniform(-3, 3) for _ in range(t)]
+        c3 = [rng.uniform(-3, 3) for _ in range(t)]
+        second = HIST_KINDS[seed % len(HIST_KINDS)]
+        spelled = _spelled(labels, al, t, nc, d)
+        if second == "spelled":
+            m2 = spelled
+        elif second == "rows":
+            rows = rows_of(nc, d)
+            m2 = [list(rng.choice(rows)) for _ in range(t)]
+        else:               # the same frames with the symbols rotated by one
+            m2 = [list(r[1:]) + [r[0]] for r in wm]
+        rec["second"] = second
+        rec["failing_call"] = seed % 2 == 1
+        chars = ALPHABET[:nc - 1] + ["~"]
+        lab = np.array(labels)
+        al0 = np.array([x - 1 for x in al])
+        path = [nc - 1] * t
+        for i, f in enumerate(al):
+            path[f - 1] = labels[i]
+        ll = _LongLived(chars, "".join(chars[x] for x in labels), d)
+        obs = []
+        for k, (m, cs) in enumerate(((wm, c0), (m2, c2), (wm, c1), (spelled, c3))):
+            if k == 2 and rec["failing_call"]:
+                # a call that may fail on the long-lived line between two uses (a label outside the alphabet; the outcome of this
+                # call is not judged): the next answers must still be about the logits the line carries then
+                try:
+                    get_line_confidence(ll.line, np.array([nc + 7] * len(labels)), aligned_letters=al0.copy())
+                except Exception:
+                    pass
+            ll.line.logits = render(m, d, cs)
+            obs.append(_observe(ll, lab, al0, path, nc, d))
+        o1, o2, o3, o4 = obs
+        for key, o in (("", o1), ("_s", o3)):
+            rec["lc" + key] = [_m6(x) for x in o["lc"]]
+            rec["let" + key] = [_m6(x) for x in o["let"]]
+            rec["cmp" + key] = _m6(o["cmp"])
+            rec["lce" + key] = o["lce"]
+            rec["lce_neg" + key] = o["lce_neg"]
+            rec["sys" + key] = o["sys"]
+        n = len(labels)
+        if any(len(o[k]) != n for o in (o1, o3) for k in ("lc", "let")):
+            rec["outcome"] = "wrong-number-of-confidences"
+            return rec
+        allv = np.concatenate([o1["lc"], o1["let"], [o1["cmp"], o1["upd"]], o3["lc"], o3["let"], [o3["cmp"], o3["upd"]]])
+        if not np.isfinite(allv).all():
+            rec["outcome"] = "exception:NaN"
+            return rec
+        rec["over"] = _u12(max(float(np.max(allv - 1.0)), float(np.max(-allv))))
+        rec["dshift"] = _u12(max(float(np.max(np.abs(o1["lc"] - o3["lc"]))), float(np.max(np.abs(o1["let"] - o3["let"])))))
+        rec["dshift_cmp"] = _u12(max(abs(o1["cmp"] - o3["cmp"]), abs(o1["upd"] - o3["upd"])))
+        rec["one"] = _u12(float(np.max(1.0 - np.concatenate([o1["lc"], o1["let"], o3["lc"], o3["let"]]))))
+        rec["one_cmp"] = _u12(max(1.0 - o1["cmp"], 1.0 - o3["cmp"], 1.0 - o1["upd"], 1.0 - o3["upd"]))
+        rec["steps"] = [_step_rec(m2, o2, n), _step_rec(spelled, o4, n)]
+    except Exception as ex:      # part of the observation
+        rec["outcome"] = "exception:" + type(ex).__name__
+    return rec
+
+
+def hist_items(cases, seed, n):
+    """a seeded sample of the TLC initial states for the history cases (own generator: the other samples stay as they were)"""
+    rng = random.Random(seed * 7919 + 16)
+    pick = cases if len(cases) <= n else rng.sample(cases, n)
+    return [(cs, (seed % 1000) * 1000000 + 700000 + i) for i, cs in enumerate(pick)]
+
+
 def bag_cases():
     out = []
     for n in (1, 2, 3):
@@ -355,9 +519,45 @@ def alto_cases(rng, per_text):
     return out
 
 
-def _alto_case(item):
-    """word / line confidences as the ALTO export reports them (median of the per-character confidences)"""
+def _alto_weights(text, pairs, dd):
+    n = len(text)
+    t = 2 * n + 1
+    nc = len(ALTO_CHARS)
+    w = np.zeros((t, nc))
+    w[:, nc - 1] = dd
+    for i, (a, b) in enumerate(pairs):
+        f = 2 * i + 1
+        w[f, :] = 0
+        w[f, ALTO_CHARS.index(text[i])] = a
+        w[f, ALTO_CHARS.index("z")] = b
+        w[f, nc - 1] = dd - a - b
+    return w.tolist(), t
+
+
+def _alto_export(page, line, text, words):
+    """one export of the (long-lived) page: the WC attributes of the words, the line confidence, the words that were judged"""
     import lxml.etree as ET
+    xml = page.to_altoxml_string()
+    root = ET.fromstring(xml.encode("utf-8"))
+    strings = list(root.iter("{*}String"))
+    if [e.get("CONTENT") for e in strings] == text.split():
+        keep = [j for j, e in enumerate(strings) if e.get("WC") is not None]
+    else:       # how the export cuts words is C06's business: only the line confidence is judged then
+        keep = []
+    wcs = [float(strings[j].get("WC")) for j in keep]
+    lconf = float(line.transcription_confidence)
+    allv = wcs + [lconf]
+    return {"words": [words[j] for j in keep], "wc": [_m6(x) for x in wcs], "lconf": _m6(lconf),
+            "over": _u12(max(max(x - 1.0 for x in allv), max(-x for x in allv))), "one": _u12(max(1.0 - x for x in allv))}
+
+
+def _alto_case(item):
+    """word / line confidences as the ALTO export reports them (median of the per-character confidences).
+    Every second case is a HISTORY on one long-lived page: the page is exported with other logits on the line first (one or
+    two earlier OCR results), then the line gets the logits of the case (assignment to `line.logits`, as a second OCR pass
+    does) and is exported - that export is the observation of the case - and finally it gets one-hot logits and is exported
+    once more.  "hsteps" holds the other exports in the order they happened (labw = label weights over dd, at = "before" /
+    "after" the export of the case): each is judged on the logits the line carried at that export."""
     from pero_ocr.core.layout import PageLayout, RegionLayout, TextLine
     (text, combo), seed = item
     rng = random.Random(seed)
@@ -371,56 +571,63 @@ def _alto_case(item):
             words.append([start, i])
             start = None
     rec = {"kind": "alto", "text": text, "combo": list(combo), "seed": seed, "dd": dd, "nums": [max(0, a - b) for a, b in pairs],
-           "words": words, "onehot": all(a == dd for a, _ in pairs), "outcome": "ok", "wc": [], "lconf": 0, "over": 0, "one": 0}
+           "words": words, "onehot": all(a == dd for a, _ in pairs), "outcome": "ok", "wc": [], "lconf": 0, "over": 0, "one": 0, "hsteps": []}
     try:
-        n = len(text)
-        t = 2 * n + 1
-        nc = len(ALTO_CHARS)
-        w = np.zeros((t, nc))
-        w[:, nc - 1] = dd
-        for i, (a, b) in enumerate(pairs):
-            f = 2 * i + 1
-            w[f, :] = 0
-            w[f, ALTO_CHARS.index(text[i])] = a
-            w[f, ALTO_CHARS.index("z")] = b
-            w[f, nc - 1] = dd - a - b
+        w, t = _alto_weights(text, pairs, dd)
         consts = [rng.uniform(-3, 3) for _ in range(t)]
         p = PageLayout(id="pg", page_size=(100, 300))
         r = RegionLayout("r1", np.array([[5, 5], [290, 5], [290, 95], [5, 95]]))
         line = TextLine(id="l1", baseline=np.array([[10.0, 60.0], [250.0, 60.0]]), polygon=np.array([[10, 35], [250, 35], [250, 72], [10, 72]]),
-                        heights=[25, 12], transcription=text, characters=list(ALTO_CHARS), logits=render(w.tolist(), dd, consts),
-                        logit_coords=[0, t])
+                        heights=[25, 12], transcription=text, characters=list(ALTO_CHARS), logit_coords=[0, t])
         r.lines.append(line)
         p.regions.append(r)
-        xml = p.to_altoxml_string()
-        root = ET.fromstring(xml.encode("utf-8"))
-        strings = list(root.iter("{*}String"))
-        if [e.get("CONTENT") for e in strings] == text.split():
-            keep = [j for j, e in enumerate(strings) if e.get("WC") is not None]
-        else:       # how the export cuts words is C06's business: only the line confidence is judged then
-            keep = []
-        wcs = [float(strings[j].get("WC")) for j in keep]
-        rec["words"] = [words[j] for j in keep]
-        lconf = float(line.transcription_confidence)
-        rec["wc"] = [_m6(x) for x in wcs]
-        rec["lconf"] = _m6(lconf)
-        allv = wcs + [lconf]
-        rec["over"] = _u12(max(max(x - 1.0 for x in allv), max(-x for x in allv)))
-        rec["one"] = _u12(max(1.0 - x for x in allv))
+
+        def other_export(cb, at):
+            prs = [ALTO_PAIRS[k] for k in cb]
+            step = {"at": at, "combo": list(cb), "labw": [a for a, _ in prs], "outcome": "ok", "wc": [], "lconf": 0, "over": 0, "one": 0}
+            try:
+                w2, _ = _alto_weights(text, prs, dd)
+                line.logits = render(w2, dd, [rng.uniform(-3, 3) for _ in range(t)])
+                ex = _alto_export(p, line, text, words)
+                step.update({k: ex[k] for k in ("wc", "lconf", "over", "one")})
+            except Exception as ex:
+                step["outcome"] = "exception:" + type(ex).__name__
+            rec["hsteps"].append(step)
+
+        history = seed % 2 == 0
+        if history:
+            for _ in range(1 + (seed // 2) % 2):
+                other_export(tuple(rng.randrange(len(ALTO_PAIRS)) for _ in text), "before")
+        line.logits = render(w, dd, consts)
+        ex = _alto_export(p, line, text, words)
+        rec.update(ex)
+        if history:
+            other_export(tuple(0 for _ in text), "after")
     except Exception as ex:
         rec["outcome"] = "exception:" + type(ex).__name__
     return rec
 
 
 def _what_alto(tr):
-    return "ALTO export of text %r with per-character (label, distractor) weights %s/8 -> WC %s, line confidence %s (millionths), over=%s outcome=%s" % (
-        tr["text"], [ALTO_PAIRS[k] for k in tr["combo"]], tr["wc"], tr["lconf"], tr["over"], tr["outcome"])
+    hist = ""
+    if tr.get("hsteps"):
+        hist = "; the same long-lived page was also exported with other logits assigned to the line: " + "; ".join(
+            "%s with label weights %s/8 -> WC %s line confidence %s over=%s one=%s outcome=%s" % (
+                h["at"], h["labw"], h["wc"], h["lconf"], h["over"], h["one"], h["outcome"]) for h in tr["hsteps"])
+    return "ALTO export of text %r with per-character (label, distractor) weights %s/8 -> WC %s, line confidence %s (millionths), over=%s outcome=%s%s" % (
+        tr["text"], [ALTO_PAIRS[k] for k in tr["combo"]], tr["wc"], tr["lconf"], tr["over"], tr["outcome"], hist)
 
 
 def execute_lines(c, items):
     global _CFG
     _CFG = dict(c)
     return pmap(_line_case, items, procs=6)
+
+
+def execute_hist(c, items):
+    global _CFG
+    _CFG = dict(c)
+    return pmap(_hist_case, items, procs=6)
 
 
 def judge(ctx, c, traces, what_of, name=None):
@@ -431,8 +638,10 @@ def judge(ctx, c, traces, what_of, name=None):
     bad = {idx for idx, _ in rej}
     for idx, clause in rej:
         tr = traces[idx]
-        ctx.violation({"cfg": c, "trace": tr, "clause": clause}, SIGS.get(clause, "clause%d" % clause),
-                      "%s; %s" % (CLAUSES.get(clause, "?"), what_of(tr)))
+        hist = "history:" if tr.get("kind") == "hist" or (tr.get("kind") == "alto" and tr.get("hsteps")) else ""
+        ctx.violation({"cfg": c, "trace": tr, "clause": clause}, hist + SIGS.get(clause, "clause%d" % clause),
+                      "%s%s; %s" % (CLAUSES.get(clause, "?"), " (long-lived line / page whose logits were re-assigned between the calls; each "
+                                    "answer is judged against the logits the line carried at that call)" if hist else "", what_of(tr)))
     # drift: the same executions against the exact rationals of the model
     good = [tr for i, tr in enumerate(traces) if i not in bad]
     before = ctx.traces_validated
@@ -445,6 +654,18 @@ def judge(ctx, c, traces, what_of, name=None):
 
 
 def _what_line(tr):
+    if tr.get("kind") == "hist":
+        def st(k):
+            x = tr["steps"][k]
+            return "weights %s -> line conf %s letter conf %s compute_line_confidence %s update_confidences %s over=%s one=%s one_cmp=%s confident_enough %s kept %s outcome=%s" % (
+                x["w"], x["lc"], x["let"], x["cmp"], x["upd"], x["over"], x["one"], x["one_cmp"], x["lce"], x["sys"], x["outcome"])
+        steps = "; ".join("step %d: %s" % (2 * k + 2, st(k)) for k in range(len(tr["steps"])))
+        return ("ONE long-lived page/line/PageDecoder set, labels=%s alignment=%s; step 1: weights %s -> line conf %s letter conf %s "
+                "compute_line_confidence %s confident_enough %s kept %s; step 3 (%sthe weights of step 1 + another constant per frame): line conf %s "
+                "letter conf %s compute_line_confidence %s confident_enough %s kept %s; over=%s dshift=%s dshift_cmp=%s (1e-12); %s; outcome=%s" % (
+                    tr["labels"], tr["al"], tr["w"], tr["lc"], tr["let"], tr["cmp"], tr["lce"], tr["sys"],
+                    "after a failing call, " if tr.get("failing_call") else "", tr["lc_s"], tr["let_s"], tr["cmp_s"], tr["lce_s"], tr["sys_s"],
+                    tr["over"], tr["dshift"], tr["dshift_cmp"], steps, tr["outcome"]))
     return ("weights=%s labels=%s alignment=%s -> line conf %s / shifted %s, letter conf %s / %s, compute_line_confidence %s / %s "
             "(millionths), over=%s dshift=%s dshift_cmp=%s (1e-12), confident_enough %s / %s, PageDecoder keeps the line at -1, -0.001, 0 .. 1: %s, outcome=%s" % (
                 tr["w"], tr["labels"], tr["al"], tr["lc"], tr["lc_s"], tr["let"], tr["let_s"], tr["cmp"], tr["cmp_s"], tr["over"],
@@ -463,12 +684,16 @@ def run(ctx):
     ctx.rule = ("every (row-normalised weight matrix with weights k/D incl. zeros = sparse-with-floor entries, label string over the non-blank "
                 "symbols, CTC-valid alignment) = the initial states of the TLC run on Confidence, rendered as logits with a seeded constant "
                 "per frame and again with a second constant per frame; every bag of 1..3 hypotheses with weights 1..3, LM weights "
-                "{.1,.4,.9} and lm_weight in {none, 0, 1/2, 1, 2}; non-trivial = some character confidence strictly between 0 and 1")
+                "{.1,.4,.9} and lm_weight in {none, 0, 1/2, 1, 2}; non-trivial = some character confidence strictly between 0 and 1; "
+                "a seeded sample of the initial states (250 / 2500 per config) and every second ALTO case again as a history on one "
+                "long-lived page / line (logits re-assigned between the calls)")
     ctx.assume("shift invariance is asserted with the alignment held fixed (Appendix D); compute_line_confidence only when every frame has a "
                "unique best symbol (a tie may flip under round-off)",
                "thresholds of the confident-line test compared across the shift lie strictly between attainable values (odd multiples of 1/(2D))",
                "tolerances: 1e-9 for range / invariance / one-hot, 1e-9 * n for the posterior sum, 2e-6 for equality with the exact rational (drift only)",
                "a stored logit of exactly 0.0 means 'absent' in the sparse encoding; shifts producing an exact 0.0 are not generated",
+               "history cases replace the logits of a long-lived line by assignment to its public `logits` attribute (what PageOCR.process_page "
+               "and merge_ocr_results do); the statement is read as: every answer is about the posteriors the line carries at the call",
                "word / line confidences of the ALTO export (WC attribute, transcription_confidence) are observed on texts made of letters and single "
                "U+0020 spaces only; only their range and the one-hot case are property-level, the exact median is drift-level")
     ctx.exhaustive = True
@@ -483,6 +708,13 @@ def run(ctx):
         for tr in traces:
             nt = any(0 < x < 1000000 for x in tr["lc"])
             ctx.count(1, (_lab(c), repr(tr["w"]), tuple(tr["labels"]), tuple(tr["al"])) if nt else None)
+        # history: a seeded sample of the same initial states on ONE long-lived page / line / PageDecoder set per case
+        htraces = execute_hist(c, hist_items(cases, ctx.seed, 250 if ctx.tier == "quick" else 2500))
+        for tr in htraces:
+            nt = any(0 < x < 1000000 for x in tr["lc"])
+            ctx.count(1, ("hist", _lab(c), repr(tr["w"]), tuple(tr["labels"]), tuple(tr["al"]), tr["second"]) if nt else None)
+        ctx.sample({"config": _lab(c) + " history", "trace": next((tr for tr in htraces if any(0 < x < 1000000 for x in tr["lc"])), htraces[0])}, limit=5)
+        traces = traces + htraces
         ctx.sample({"config": _lab(c), "trace": next((tr for tr in traces if any(0 < x < 1000000 for x in tr["lc"])), traces[0])}, limit=4)
         rej, rej2 = judge(ctx, c, traces, _what_line)
         if first and not rej:
@@ -530,15 +762,17 @@ def run(ctx):
     ctx.notes["explanation"] = ("TLC exhaustive on Confidence (exact rationals; invariants %s) per config; each initial state rendered as sparse logits "
                                 "twice (two different per-frame constants) and evaluated by get_line_confidence (CTC and transformer branch), "
                                 "get_letter_confidence, PageParser.compute_line_confidence, line_confident_enough; bags by BagOfHypotheses; "
-                                "fixed-point values judged by TLC in Confidence_Trace" % INVS)
+                                "fixed-point values judged by TLC in Confidence_Trace; a seeded sample of the initial states and every second ALTO case also as a "
+                                "HISTORY on one long-lived page / line / PageDecoder set (logits re-assigned 4 times, a failing call in between), every step "
+                                "judged by TLC on the matrix recorded for that step" % INVS)
 
 
 def replay(ctx, case):
     c = case["cfg"]
     tr = case["trace"]
-    if tr["kind"] == "line":
+    if tr["kind"] in ("line", "hist"):
         item = ((tuple(tuple(r) for r in tr["w"]), tuple(tr["labels"]), tuple(tr["al"])), tr["seed"])
-        traces = execute_lines(c, [item])
+        traces = execute_hist(c, [item]) if tr["kind"] == "hist" else execute_lines(c, [item])
         judge(ctx, c, traces, _what_line)
     elif tr["kind"] == "alto":
         traces = [_alto_case(((tr["text"], tuple(tr["combo"])), tr["seed"]))]
